@@ -38,7 +38,8 @@ type site struct {
 	Func  string
 	Hot   bool
 	Write bool
-	Sync  bool // the statement performs a sync / sync/atomic operation
+	Sync  bool   // the statement performs a sync / sync/atomic operation
+	Root  string // for write sites: the package-level variable written ("pkg.name")
 }
 
 type pkgInfo struct {
@@ -180,6 +181,25 @@ func shallow(n ast.Node, f func(ast.Node) bool) {
 // stmtWritesPkgState: assignment to, address-of, inc/dec of, or pointer-method
 // call on, an expression rooted at a package-level variable of non-sync type.
 func stmtWritesPkgState(pi *pkgInfo, s ast.Stmt) bool {
+	return stmtWrittenRoot(pi, s) != ""
+}
+
+func isBasic(t types.Type) bool {
+	if t == nil {
+		return false
+	}
+	_, ok := t.Underlying().(*types.Basic)
+	return ok
+}
+
+// stmtWrittenRoot returns the package-level variable (as "pkg.name") that the
+// statement itself writes: an assignment to, inc/dec of, or pointer-receiver
+// method call on, an expression rooted at a package-level variable, where the
+// written expression has a composite type (flags, counters and other scalars
+// are bookkeeping, not constructed state) and is not of a sync type. Taking
+// the address of a package-level variable is not a write.
+func stmtWrittenRoot(pi *pkgInfo, s ast.Stmt) string {
+	root := ""
 	w := false
 	atomicArg := map[*ast.UnaryExpr]bool{}
 	exprType := func(e ast.Expr) types.Type {
@@ -191,13 +211,16 @@ func stmtWritesPkgState(pi *pkgInfo, s ast.Stmt) bool {
 	check := func(e ast.Expr) {
 		if v := rootVar(pi, e); v != nil {
 			t := exprType(e)
-			if t != nil && isSyncType(t) {
+			if t != nil && (isSyncType(t) || isBasic(t)) {
 				return
 			}
 			if isSyncType(v.Type()) {
 				return
 			}
 			w = true
+			if root == "" {
+				root = pi.name + "." + v.Name()
+			}
 		}
 	}
 	shallow(s, func(n ast.Node) bool {
@@ -210,12 +233,34 @@ func stmtWritesPkgState(pi *pkgInfo, s ast.Stmt) bool {
 			}
 		case *ast.IncDecStmt:
 			check(x.X)
-		case *ast.UnaryExpr:
-			if x.Op == token.AND && !atomicArg[x] {
-				check(x.X)
-			}
 		case *ast.CallExpr:
+			// copy(dst, ...) and delete(m, k) write their first argument
+			if id, ok := x.Fun.(*ast.Ident); ok && (id.Name == "copy" || id.Name == "delete") && len(x.Args) > 0 {
+				if _, isBuiltin := pi.info.Uses[id].(*types.Builtin); isBuiltin {
+					check(x.Args[0])
+				}
+			}
 			if sel, ok := x.Fun.(*ast.SelectorExpr); ok {
+				// publication of constructed state through an atomic pointer or value:
+				// p.Store(t) / p.Swap(t) / p.CompareAndSwap(nil, t) on a package-level
+				// atomic.Pointer[T] or atomic.Value counts as a write of that variable
+				if sl := pi.info.Selections[sel]; sl != nil {
+					if fo, ok := sl.Obj().(*types.Func); ok && fo.Pkg() != nil && fo.Pkg().Path() == "sync/atomic" &&
+						(fo.Name() == "Store" || fo.Name() == "Swap" || fo.Name() == "CompareAndSwap") {
+						ts := ""
+						if t := exprType(sel.X); t != nil {
+							ts = t.String()
+						}
+						if strings.Contains(ts, "atomic.Pointer[") || strings.HasSuffix(ts, "atomic.Value") {
+							if v := rootVar(pi, sel.X); v != nil {
+								w = true
+								if root == "" {
+									root = pi.name + "." + v.Name()
+								}
+							}
+						}
+					}
+				}
 				if id, ok := sel.X.(*ast.Ident); ok {
 					if pn, ok := pi.info.Uses[id].(*types.PkgName); ok && pn.Imported().Path() == "sync/atomic" {
 						// synchronisation on a plain variable: not a package-state write
@@ -240,7 +285,11 @@ func stmtWritesPkgState(pi *pkgInfo, s ast.Stmt) bool {
 		}
 		return true
 	})
-	return w
+	_ = atomicArg
+	if !w {
+		return ""
+	}
+	return root
 }
 
 func funcIsHot(pi *pkgInfo, body ast.Node) bool {
@@ -344,7 +393,9 @@ func (fw *fileWork) instrumentBlock(b *ast.BlockStmt, fn string, hot bool, loopB
 
 func (fw *fileWork) instrumentList(list []ast.Stmt, fn string, hot bool) {
 	for _, s := range list {
-		id := fw.addSite(s.Pos(), fn, hot, stmtWritesPkgState(fw.pi, s))
+		wr := stmtWrittenRoot(fw.pi, s)
+		id := fw.addSite(s.Pos(), fn, hot, wr != "")
+		sites[id].Root = wr
 		if stmtIsSync(fw.pi, s) {
 			sites[id].Sync = true
 		}
@@ -369,6 +420,7 @@ func (fw *fileWork) walk(n ast.Node, fn string, hot bool) {
 				sub.run(s.Body, name, h)
 				return false
 			case *ast.GoStmt:
+				stmtExprs[s.Call] = true
 				unsupported = append(unsupported, fmt.Sprintf("%s: go statement", fset.Position(s.Pos())))
 			case *ast.SelectStmt:
 				unsupported = append(unsupported, fmt.Sprintf("%s: select statement", fset.Position(s.Pos())))
@@ -386,6 +438,9 @@ func (fw *fileWork) walk(n ast.Node, fn string, hot bool) {
 				if c, ok := s.X.(*ast.CallExpr); ok {
 					stmtExprs[c] = true
 				}
+			case *ast.DeferStmt:
+				// wrapping the deferred call would evaluate it at defer time
+				stmtExprs[s.Call] = true
 			}
 			return true
 		})
@@ -506,6 +561,46 @@ func (sw *subWalker) clauses(body *ast.BlockStmt, fn string, hot bool, rec func(
 	}
 }
 
+// rewritten remembers the selectors of sync calls that were routed through a
+// gate; any other mention of a blocking sync primitive is unsupported.
+var rewritten = map[*ast.SelectorExpr]bool{}
+
+// auditSyncUses records, after a file has been walked, every selector that
+// denotes a blocking sync method or constructor and was not rewritten as a
+// direct call: method values (unlock := mu.Unlock), method expressions,
+// sync.Locker / RLocker, sync.OnceFunc / OnceValue(s), sync.NewCond.
+func (fw *fileWork) auditSyncUses() {
+	blocking := map[string]bool{"Lock": true, "Unlock": true, "RLock": true, "RUnlock": true, "Do": true, "Wait": true,
+		"TryLock": true, "TryRLock": true, "RLocker": true, "Signal": true, "Broadcast": true}
+	ast.Inspect(fw.file, func(n ast.Node) bool {
+		sel, ok := n.(*ast.SelectorExpr)
+		if !ok || rewritten[sel] {
+			return true
+		}
+		if s := fw.pi.info.Selections[sel]; s != nil {
+			if fo, ok := s.Obj().(*types.Func); ok && fo.Pkg() != nil && fo.Pkg().Path() == "sync" && blocking[fo.Name()] {
+				recv := ""
+				if sig, ok := fo.Type().(*types.Signature); ok && sig.Recv() != nil {
+					recv = sig.Recv().Type().String()
+				}
+				if !strings.Contains(recv, "sync.Pool") && !strings.Contains(recv, "sync.Map") {
+					unsupported = append(unsupported, fmt.Sprintf("%s: use of %s that is not a plain call", fset.Position(sel.Pos()), fo.FullName()))
+				}
+			}
+			return true
+		}
+		if id, ok := sel.X.(*ast.Ident); ok {
+			if pn, ok := fw.pi.info.Uses[id].(*types.PkgName); ok && pn.Imported().Path() == "sync" {
+				switch sel.Sel.Name {
+				case "OnceFunc", "OnceValue", "OnceValues", "NewCond":
+					unsupported = append(unsupported, fmt.Sprintf("%s: sync.%s", fset.Position(sel.Pos()), sel.Sel.Name))
+				}
+			}
+		}
+		return true
+	})
+}
+
 func (fw *fileWork) rewriteSyncCall(c *ast.CallExpr) {
 	if !fw.yields {
 		return
@@ -580,6 +675,7 @@ func (fw *fileWork) rewriteSyncCall(c *ast.CallExpr) {
 	} else if isPtr {
 		open = helper + "(("
 	}
+	rewritten[sel] = true
 	xs, xe := fw.off(sel.X.Pos()), fw.off(sel.X.End())
 	fw.edits = append(fw.edits, edit{off: xs, end: xs, text: open, prio: 1})
 	if len(c.Args) == 0 {
@@ -655,6 +751,7 @@ func main() {
 					(&subWalker{fw: fw}).run(fd.Body, name, hot)
 				}
 				// package-level initialisers may contain function literals too: left alone
+				fw.auditSyncUses()
 			}
 			if len(fw.edits) == 0 {
 				continue
@@ -697,13 +794,17 @@ func structHasSync(st *types.Struct) bool {
 	return false
 }
 
+// generatedNames are the package-level variables this tool generates itself.
+var generatedNames = map[string]bool{"VerifSimYield": true, "VerifSimOnceDo": true, "VerifSimMutex": true, "VerifUnsupported": true,
+	"VerifSites": true, "VerifPkgVarNames": true, "VerifPkgTruncations": true}
+
 // pkgVars lists the package-level variables of a package, sorted by name.
 func pkgVars(pi *pkgInfo) []*types.Var {
 	var vs []*types.Var
 	sc := pi.pkg.Scope()
 	for _, n := range sc.Names() {
 		if v, ok := sc.Lookup(n).(*types.Var); ok {
-			if strings.HasPrefix(n, "Verif") || strings.HasPrefix(n, "verif") || n == "_" {
+			if generatedNames[n] || n == "_" {
 				continue
 			}
 			vs = append(vs, v)
@@ -719,15 +820,19 @@ func genSnapshot(pi *pkgInfo) string {
 // (sorted by rendered key) and interfaces up to a fixed depth; values of sync
 // and sync/atomic types are skipped. Generated from the type-checked scope.
 func VerifPkgState() []byte {
-	var out []byte
+	var verifOut__ []byte
 `)
 	for _, v := range pkgVars(pi) {
-		if isSyncType(v.Type()) {
-			continue
-		}
-		fmt.Fprintf(&sb, "\tout = append(out, %q...)\n\tout = verifDeep(out, reflect.ValueOf(&%s).Elem(), 0)\n", v.Name()+"=", v.Name())
+		fmt.Fprintf(&sb, "\tverifOut__ = append(verifOut__, %q...)\n\tverifOut__ = verifDeep(verifOut__, reflect.ValueOf(&%s).Elem(), 0)\n", v.Name()+"=", v.Name())
 	}
-	sb.WriteString("\treturn out\n}\n\n")
+	sb.WriteString("\treturn verifOut__\n}\n\n")
+	// per-variable hashes (for the lazily-built-constant criterion of C18)
+	sb.WriteString("// VerifPkgVarStates returns the rendering of each package-level variable separately.\nfunc VerifPkgVarStates() map[string][]byte {\n\tm := map[string][]byte{}\n")
+	for _, v := range pkgVars(pi) {
+		fmt.Fprintf(&sb, "\tm[%q] = verifDeep(nil, reflect.ValueOf(&%s).Elem(), 0)\n", pi.name+"."+v.Name(), v.Name())
+	}
+	sb.WriteString("\treturn m\n}\n\n")
+	sb.WriteString("// VerifPkgTruncations counts places where the rendering gave up (depth limit).\nvar VerifPkgTruncations int\n\n")
 	sb.WriteString("// VerifPkgVarNames lists the variables covered by VerifPkgState.\nvar VerifPkgVarNames = []string{")
 	for _, v := range pkgVars(pi) {
 		fmt.Fprintf(&sb, "%q, ", v.Name())
@@ -741,11 +846,41 @@ func VerifPkgState() []byte {
 // verifDeep appends a canonical rendering of v. Unexported fields are read
 // through their address; nothing is ever written.
 func verifDeep(out []byte, v reflect.Value, depth int) []byte {
-	if depth > 6 || !v.IsValid() {
+	if !v.IsValid() {
+		return append(out, '0')
+	}
+	if depth > 24 {
+		VerifPkgTruncations++
 		return append(out, '?')
 	}
 	t := v.Type()
 	if verifIsSync(t) {
+		// state behind atomic.Pointer / atomic.Value / atomic integers is followed
+		// through Load; sync.Map through Range (sorted); locks and Once are skipped
+		if v.CanAddr() {
+			pv := v
+			if !pv.CanInterface() {
+				pv = reflect.NewAt(t, unsafe.Pointer(v.UnsafeAddr())).Elem()
+			}
+			if m := pv.Addr().MethodByName("Load"); m.IsValid() && m.Type().NumIn() == 0 && m.Type().NumOut() == 1 {
+				out = append(out, 'A')
+				return verifDeep(out, m.Call(nil)[0], depth+1)
+			}
+			if m := pv.Addr().MethodByName("Range"); m.IsValid() && t.Name() == "Map" {
+				var kvs []string
+				pv.Addr().Interface().(*sync.Map).Range(func(k, val any) bool {
+					kvs = append(kvs, string(verifDeep(nil, reflect.ValueOf(&k).Elem(), depth+1))+":"+string(verifDeep(nil, reflect.ValueOf(&val).Elem(), depth+1)))
+					return true
+				})
+				sort.Strings(kvs)
+				out = append(out, 'M')
+				for _, e := range kvs {
+					out = append(out, e...)
+					out = append(out, ';')
+				}
+				return out
+			}
+		}
 		return append(out, '~')
 	}
 	if v.CanAddr() && !v.CanInterface() {
@@ -763,11 +898,15 @@ func verifDeep(out []byte, v reflect.Value, depth int) []byte {
 			return append(out, 'n')
 		}
 		out = append(out, 'i')
+		out = append(out, v.Elem().Type().String()...)
 		e := v.Elem()
 		if e.Kind() == reflect.Ptr || e.Kind() == reflect.Map || e.Kind() == reflect.Slice {
 			return verifDeep(out, e, depth+1)
 		}
-		return append(out, fmt.Sprintf("%v", e)...)
+		// a non-pointer dynamic value: copy it into addressable memory and render it
+		c := reflect.New(e.Type()).Elem()
+		c.Set(e)
+		return verifDeep(out, c, depth+1)
 	case reflect.Struct:
 		out = append(out, '{')
 		for i := 0; i < v.NumField(); i++ {
@@ -858,6 +997,7 @@ type VerifSite struct {
 	Hot   bool
 	Write bool
 	Sync  bool
+	Root  string
 }
 
 //go:norace
@@ -932,7 +1072,7 @@ func verifSimRWRUnlock(m *sync.RWMutex) {
 	sb.WriteString("}\n\n")
 	sb.WriteString("// VerifSites maps site ids to source positions.\nvar VerifSites = []VerifSite{\n")
 	for _, s := range sites {
-		fmt.Fprintf(&sb, "\t{%q, %d, %q, %v, %v, %v},\n", s.File, s.Line, s.Func, s.Hot, s.Write, s.Sync)
+		fmt.Fprintf(&sb, "\t{%q, %d, %q, %v, %v, %v, %q},\n", s.File, s.Line, s.Func, s.Hot, s.Write, s.Sync, s.Root)
 	}
 	sb.WriteString("}\n\n")
 	sb.WriteString(genSnapshot(pi))
